@@ -122,6 +122,25 @@ func c16Call(env *core.Env, name string, n int, experimental bool, inTable bool,
 	}
 	if !accepted {
 		env.Cover("rejected")
+		// a call Compile rejects is rejected wherever it stands: as either operand of every binary operator, in an
+		// indexer, as an argument, in a criterion, in parentheses
+		if !strings.Contains(src, "$") {
+			positions := []string{"((%s))", "iif(true, %s)", "%%multi[%s]", "%%multi.where(%s)", "%%multi.select(%s)", "-(%s)", "(%s).count()", "(%s) is Integer"}
+			for _, op := range []string{"=", "!=", "<", "<=", ">", ">=", "+", "-", "&", "*", "/", "div", "mod", "and", "or", "xor", "implies", "|", "in", "contains", "~"} {
+				positions = append(positions, "1 "+op+" %s", "%s "+op+" 1", "Patient.active "+op+" (%s)")
+			}
+			for _, pos := range positions {
+				psrc := strings.ReplaceAll(strings.ReplaceAll(pos, "%s", src), "%%", "%")
+				pex, pcr := fx.Compile(env, psrc, co...)
+				env.Cover("rejected-in-position")
+				if pcr.IsPanic() {
+					env.Violatef(fx.PanicSig("C16", pcr), "Compile(`%s`) => %s", psrc, pcr.Short())
+				} else if pex != nil {
+					env.Violatef(fmt.Sprintf("C16/compile-accepted-in-position/%s/%d", name, n), "`%s` [%s] is rejected by Compile, but the same call inside `%s` is accepted", src, cfg, psrc)
+					break
+				}
+			}
+		}
 		return
 	}
 	env.Cover("accepted")
